@@ -309,6 +309,10 @@ class CallStack(deque):
         if graph.has_node(node):
             graph.remove_node(node)
 
+        # A value the formula stored for its own node before it failed
+        if cells.has_node(node[KEY]):
+            cells.on_clear_trace(node[KEY])
+
         while self.refstack:
             if self.refstack[-1][0] == self.counter:
                 _, ref = self.refstack.pop()
